@@ -13,7 +13,7 @@ RULE = ("E-FULL: every Unicode scalar value c (1,112,064) in the 4 contexts c, '
         "Non-trivial: the output contains an accent command.")
 ASSUMPTIONS = ["inputs that themselves spell an accent command (backslash, accent letter, brace) are excluded from read-back (ambiguous by design)",
                "unicodedata of the running interpreter is the reference for NFD and decompositions"]
-REQUIRED_COUNTERS = ("codepoints", "with_command", "strings", "exports")
+REQUIRED_COUNTERS = ("codepoints", "with_command", "strings", "exports", "fontdoc_cases")
 
 ALPHA12 = ["a", " ", "\\", "{", "&", "\u00e9", "\u0301", "\u0489", "\u2026", "\u00a0", "\u4e2d", "\U0001F600"]
 SPECIALS = ["%", "#", "$", "_", "~", "^", "}", "\u212a", "\u00fc", "\n", "\t"]  # TeX specials and white space pass through
@@ -44,6 +44,7 @@ def plan(tier, seed):
     shards.append({"kind": "str", "alpha": ALPHA12[:8] + SPECIALS, "nmax": 3, "first": None})
     for first in range(len(ALPHA12) + len(SPECIALS)):  # label texts through the real TikZ export (length <= 2)
         shards.append({"kind": "tex", "alpha": ALPHA12 + SPECIALS, "nmax": 2, "first": first})
+    shards.append({"kind": "fontdoc"})
     if tier == "thorough":
         for first in range(len(alpha)):
             shards.append({"kind": "tex", "alpha": alpha, "nmax": 3, "first": first})
@@ -74,9 +75,45 @@ def via_export(text):
     return doc[a:b - 1]
 
 
+SENTINEL = "\u2402SENTINEL\u2402"
+FONTDOC_TEXTS = ["{preamble}", "{text}", "{fontsize}", "{0}", "{}", "a{preamble}b", "{{x}}", "%s", "\\{", "}"]
+
+
+def check_fontdoc(text, preamble):
+    """The measuring document (labella.tex.get_latex_fontdoc) carries the converted label text; the document for a
+    label must be the document for a sentinel label with the sentinel replaced - whatever the template looks like."""
+    from labella.tex import get_latex_fontdoc, uni2tex
+    try:
+        ref = get_latex_fontdoc(SENTINEL, preamble=preamble)
+        doc = get_latex_fontdoc(text, preamble=preamble)
+    except Exception as e:
+        return "EXC:fontdoc:" + type(e).__name__, "get_latex_fontdoc(%r, preamble=%r) raised %r" % (text, preamble, e)
+    if SENTINEL not in ref:
+        return "C19:fontdoc", "the measuring document does not contain the label text"
+    want = ref.replace(SENTINEL, uni2tex(text))
+    if doc != want:
+        k = next((i for i, (a, b) in enumerate(zip(doc, want)) if a != b), min(len(doc), len(want)))
+        return ("C19:fontdoc", "get_latex_fontdoc(%r, preamble=%r): ...%r... but the template with this text is ...%r..."
+                % (text, preamble, doc[max(0, k - 20):k + 40], want[max(0, k - 20):k + 40]))
+    return None
+
+
 def run_shard(shard):
     from labella.tex import uni2tex
     acc = Acc()
+    if shard["kind"] == "fontdoc":
+        texts = FONTDOC_TEXTS + ["".join(t) for n in (1, 2) for t in itertools.product(ALPHA12[:9] + ["%", "}"], repeat=n)]
+        for text in texts:
+            for preamble in ("", "\\usepackage{times}", "{x} \u00e9"):
+                acc.evals += 1
+                acc.states += 1
+                acc.trans += 1
+                acc.counters["fontdoc_cases"] += 1
+                bad = check_fontdoc(text, preamble)
+                if bad:
+                    acc.violation({"text": text, "preamble": preamble, "via": "fontdoc"}, bad[0], bad[1], order=(2, len(text), text))
+        acc.sample({"text": text, "preamble": preamble, "via": "fontdoc"})
+        return acc
     if shard["kind"] == "cp":
         for cp in range(shard["a"], shard["b"]):
             if 0xD800 <= cp <= 0xDFFF:
@@ -131,6 +168,8 @@ def run_shard(shard):
 
 def replay(case):
     from labella.tex import uni2tex
+    if case.get("via") == "fontdoc":
+        return check_fontdoc(case["text"], case["preamble"])
     if case.get("via") == "tex":
         try:
             got = via_export(case["text"])
